@@ -431,8 +431,8 @@ def check_tx(ctx, case):
 
 
 def check_fake(ctx, case):
-    """the placeholder generator on its own: model vs implementation for a given count (collisions from 257 on are a
-    property of both; not judged: more than 256 key witnesses do not fit a transaction)"""
+    """the placeholder generator on its own: model vs implementation for a given count; the placeholders must be pairwise
+    distinct for EVERY count (judged beyond 256 too since repair 504b48a)"""
     sc = {"utxos": [utxo("f0", "k0", 5_000_000)], "address_utxos": {}, "ops": [], "build": {}, "sign": []}
     from pycardano import TransactionBuilder
     b = TransactionBuilder(S.StubContext(sc))
@@ -440,7 +440,7 @@ def check_fake(ctx, case):
     b.witness_override = n
     fake = b._build_fake_vkey_witnesses()
     ser = {w.to_cbor() for w in fake}
-    if n <= 256 and (len(fake) != n or len(ser) != n):
+    if len(fake) != n or len(ser) != n:
         ctx.violation("placeholder witnesses are not pairwise distinct", case, n, [len(fake), len(ser)])
     if ctx.have_driver():
         mf = ctx.driver().ok({"op": "witness.fake", "n": str(n)})
@@ -697,7 +697,7 @@ def corpus():
     out.append(sc([{"op": "withdraw", "stake": "s3", "amount": 7}, {"op": "vote", "cred": "x2", "type": "drep"},
                    {"op": "vote", "cred": "s4", "type": "pool", "n": 1}, {"op": "vote", "cred": "k4", "type": "cc", "n": 2}],
                   ["k0", "s3", "x2", "s4", "k4", "k4", "x2~"]))
-    out += [{"kind": "fake", "n": n} for n in (1, 2, 3, 4, 8, 16, 128, 255, 256, 257, 300)]
+    out += [{"kind": "fake", "n": n} for n in (1, 2, 3, 4, 8, 16, 128, 255, 256, 257, 300, 512, 513)]
     return out
 
 
@@ -739,7 +739,7 @@ def run(ctx):
         n = rng.choice([0, 1, 31, 32, 32, 32, 33, 64, 200])
         dispatch(ctx, {"kind": "sign", "key": l, "msg": bytes(rng.randrange(256) for _ in range(n)).hex()})
     for n in range(ctx.budget(5, 40)):
-        dispatch(ctx, {"kind": "fake", "n": rng.randint(1, 256)})
+        dispatch(ctx, {"kind": "fake", "n": rng.randint(1, 256) if rng.random() < 0.8 else rng.randint(257, 700)})
 
 
 def replay(ctx, data):
